@@ -81,6 +81,8 @@ def _run_variant(args):
     ctx = report.Ctx(prop, 'quick')
     try:
         mod.run(repo, ctx)
+        from . import lints
+        lints.for_property(repo, ctx, prop)
     except model.AnalysisError as e:
         return (v['id'], 'analysis-error', [str(e)])
     known = {(k['rule'], k['construct'])
